@@ -137,6 +137,15 @@ func genApl(r *Rng, tier string) *Enc {
 			return df.RenameColumn(old, old+"z")
 		})
 	}
+	if axis == 0 && tag == 14 && n >= 2 && df.Ncols() >= 2 && r.Chance(50) {
+		// one column keeps exactly ONE non-nil cell, another keeps all of its cells
+		ks := df.ColumnNames()
+		for i := range df.Columns[ks[0]].Data {
+			df.Columns[ks[0]].Data[i] = nil
+			df.Columns[ks[1]].Data[i] = i
+		}
+		df.Columns[ks[0]].Data[r.Intn(n)] = "only"
+	}
 	e.Tok("F")
 	e.Frame(df)
 	e.Int(axis)
